@@ -5,6 +5,7 @@
 #![allow(clippy::all)]
 
 pub mod refmodel;
+pub mod tables;
 pub mod src;
 pub mod known;
 pub mod stubs;
